@@ -93,18 +93,19 @@ open EncJsonEmb in
     of the type has non-nil embedded pointers (`HasTypeE`): through a nil embedded pointer json.Marshal leaves out the
     promoted fields, the required ones included.
 
-    Partial, what is missing: (1) `hno`: no TypeSchemas entry at all (the full statement would only ask that the
-    *embedded* types have none; the types of the domain contain no other named types, so no other entry is ever
-    consulted); with an override of an embedded type the statement is false in general (the override replaces the
-    promoted properties by its own, and `additionalProperties: false` then rejects the promoted members);
-    (2) types outside `InDomainE`: D14 (a JSON name shared by two Go names), D16 (tagged / non-struct embedded
-    fields), named types in non-embedded positions (as in `infer_sound`). -/
+    `hno` (`EmbNotInTable`): no embedded field, at any level of `T`, is of a type with a TypeSchemas entry (other
+    entries, e.g. the initial ones for time.Time …, do not matter; `embNotInTable_of_empty` for the empty table).  With
+    an override of an embedded type the statement is false in general: the override replaces the promoted properties
+    by its own, and `additionalProperties: false` then rejects the promoted members.
+
+    Partial, what is missing: types outside `InDomainE`: D14 (a JSON name shared by two Go names), D16 (tagged /
+    non-struct embedded fields), named types in non-embedded positions (as in `infer_sound`). -/
 theorem infer_soundE_partial (opts : IOpts) (fuel : Nat) (T : GoTypeE) (st : Store) (id : NodeId) (st' : Store)
-    (re : String → String → Bool) (hnfs : opts.nullForSlices = true) (hno : ∀ nm, Json.lookup nm opts.schemas = none)
+    (re : String → String → Bool) (hnfs : opts.nullForSlices = true) (hno : EmbNotInTable opts T)
     (hdom : InDomainE T = true) (h : forTypeE opts fuel T st = .ok (some id, st')) (v : GoValue) (hv : HasTypeE T v)
     (fuel' : Nat) (hf : depthE T ≤ fuel') :
     Spec.valid (specEnvNoRefs st' re) fuel' id (encodeE T v) = some true := by
-  obtain ⟨id', hid, hm⟩ := inferFuelE_models opts hno fuel T [] st (some id) st' hdom h
+  obtain ⟨id', hid, hm⟩ := inferFuelE_models opts fuel T [] st (some id) st' hdom hno h
   cases hid
   rw [hnfs] at hm
   exact valid_iff_isSome.1 ((soundE (re := re) (wt T) T (Nat.le_refl _) hdom false id hm fuel' [] hf).2 v hv)
@@ -119,9 +120,9 @@ open EncJsonEmb in
 /-- the schema built for a type of the domain is the schema of the type with its embedded structs dissolved
     (`flatten`: the fields of a struct are its live visible fields), in the sense of `Go.Models` -/
 theorem infer_models_flatten (opts : IOpts) (fuel : Nat) (T : GoTypeE) (st : Store) (id : NodeId) (st' : Store)
-    (hno : ∀ nm, Json.lookup nm opts.schemas = none) (hdom : InDomainE T = true)
+    (hno : EmbNotInTable opts T) (hdom : InDomainE T = true)
     (h : forTypeE opts fuel T st = .ok (some id, st')) : Models opts.nullForSlices st' (flatten T) false id := by
-  obtain ⟨id', hid, hm⟩ := inferFuelE_models opts hno fuel T [] st (some id) st' hdom h
+  obtain ⟨id', hid, hm⟩ := inferFuelE_models opts fuel T [] st (some id) st' hdom hno h
   cases hid
   exact hm
 
@@ -188,7 +189,8 @@ theorem embedVal_hasType : HasTypeE (embedValT tI tX tY tA) (.struct [.struct [.
 example (id : NodeId) (st' : Store) (h : forTypeE {} 3 (embedValT tI tX tY tA) #[] = .ok (some id, st')) :
     Spec.valid (specEnvNoRefs st') 4 id (.obj [("x", .num 1), ("a", .num 2)]) = some true := by
   have hIo := (fieldJSONInfo_untagged (g := "Inner") (tag := tI) (by rw [hI]; rfl))
-  have := infer_soundE_partial {} 3 _ #[] id st' (fun _ _ => false) rfl (fun _ => rfl)
+  have := infer_soundE_partial {} 3 _ #[] id st' (fun _ _ => false) rfl
+    ((embNotInTable_of_empty (opts := {}) (fun _ => rfl) _).1 _ (Nat.le_refl _))
     (embedVal_inDomain tI tX tY tA hI hX hY hA) h _ (embedVal_hasType tI tX tY tA hI hX hY hA) 4
     (by simp [embedValT, fld, emb, depthE, depthFieldsE])
   simpa [embedValT, fld, emb, encodeE, encodeFieldsE, encodeEmbE, candidates, embCandidates, classify, mkTField, isDominant,
